@@ -71,8 +71,8 @@ def instances(param_list):
             rf = os.path.join(t, "req.json")
             with open(rf, "w") as f:
                 json.dump(req, f)
-            tf = os.path.join(d, "tables.json.tmp")
-            of = os.path.join(d, "outmap.json.tmp")
+            tf = os.path.join(d, f"tables.json.{os.getpid()}.tmp")
+            of = os.path.join(d, f"outmap.json.{os.getpid()}.tmp")
             r = tlc.run_ok("Export", env={"REQ_FILE": rf, "TABLES_FILE": tf, "OUTMAP_FILE": of})
             if f'"EXPORTED", {len(req)}' not in r.out:
                 raise tlc.TlcError("layout export incomplete:\n" + r.out[-2000:])
@@ -80,7 +80,6 @@ def instances(param_list):
             os.replace(of, os.path.join(d, "outmap.json"))
             for k, path in seen.items():
                 tmp = path + f".{os.getpid()}.tmp"
-                os.replace(os.path.join(t, k + ".json"), tmp) if False else None
                 with open(os.path.join(t, k + ".json")) as f:
                     data = f.read()
                 with open(tmp, "w") as f:
